@@ -310,10 +310,11 @@ def run(tier, seed):
         rep.violation(kind, '%s (%d values), e.g. `%s` with %r: %s' % (kind, cnt, text, vals, detail),
                       {'script': text, 'values': vals, 'detail': detail, 'cases': cnt})
     from . import concur
-    ctasks = concurrent_pairs(tier)
+    n_pairs = len(concurrent_pairs(tier))
+    ctasks = concur.split(concurrent_pairs(tier))
     cres = par.run_tasks(concur.pair_task, ctasks)
     cexec = sum(r['execs'] for r in cres)
-    assert all(r['execs'] > 20 for r in cres)
+    assert cexec > 20 * n_pairs
     for task, r in zip(ctasks, cres):
         for kind, (cnt, choices, detail, texts) in r['viol'].items():
             rep.violation(kind, '%s (%d schedules): %s; jobs %r' % (kind, cnt, detail, texts),
@@ -334,7 +335,7 @@ def run(tier, seed):
         'templates': len(names),
         'template_names_sample': names[::17],
         'roundtrip_cases': n_rt,
-        'concurrent_job_pairs': len(ctasks),
+        'concurrent_job_pairs': n_pairs,
         'concurrent_schedules': cexec,
         'samples': ['units raw ... hue 65535 set "s" zone 1 2', 'hue -719.75 set group "g"', 'duration 4294967.296 on location "p"',
                     'units rgb red 10 green 100 blue 50 set "m" row 0 column 1'],
